@@ -491,3 +491,23 @@ Definition harmless (s : stmt) : bool := harmless_fuel 2 s.
 Definition trk_nostamp (k : trk) : trk :=
   if t_conf k then k else mk_trk (t_loc k) (t_user k) (t_dispute k) (t_penalty k) 0 false.
 Definition db_nostamp (d : db) : db := mk_db (d_users d) (d_apps d) (map trk_nostamp (d_trks d)).
+
+(* what an operation legitimately adds to a user's slots when it completes: the subscription slots of
+   a registration, for the registering user *)
+Definition grant (t : tower) (o : op) (v : N) : N :=
+  match o with ORegister u => if N.eqb v u then c_slots (cfg t) else 0 | _ => 0 end.
+
+(* ------------------------------------------------------------------------------------------ *)
+(* a concrete reachable tower (bootstrapped at height 120 on 100 empty blocks; two users; user 1 holds
+   a 3-slot appointment, user 2 a 1-slot one) and an update shrinking user 1's appointment to 1 slot:
+   the witness of never_grants_refuted and of the non-vacuity examples *)
+Definition ex_dummy : tower :=
+  mk_tower (mk_config 0 0 0) [] 0 [] [] [] 0 (mk_txindex [] [] [] 0%Z 0) (mk_txindex [] [] [] 0%Z 0) 0 [] [] [].
+Definition ex_cfg : config := mk_config 10 300 5.
+Definition ex_blocks : list (N * list N) := map (fun k => (1000 + N.of_nat k, @nil N)) (seq 0 100).
+Definition ex_t0 : tower := match init ex_cfg 120 ex_blocks with Some t => t | None => ex_dummy end.
+Definition ex_hist : list (op * script) :=
+  [(ORegister 1, []); (ORegister 2, []); (OAdd (Some 1) 7 (mk_blob 7 (Some 9) 4100) 20 1, []);
+   (OAdd (Some 2) 8 (mk_blob 8 (Some 19) 100) 20 2, [])].
+Definition ex_t : tower := fst (run true ex_t0 ex_hist).
+Definition ex_shrink : op := OAdd (Some 1) 7 (mk_blob 7 (Some 9) 100) 20 3.
